@@ -195,9 +195,11 @@ Lemma chk_payload_s_sound g : chk_payload_s K stranded mode lreads g = true ->
   payload_ok K stranded mode rank (kmer_colour K stranded lreads) g.
 Proof.
   unfold chk_payload_s, payload_ok. rewrite forallb_forall. intros H n Hn. specialize (H _ Hn).
-  apply andb_true_iff in H as [H1 H2]. split; [now apply sorted_eq_perm_N|].
-  intros Hm k Hk. destruct (mode =? 0) eqn:E; [apply N.eqb_eq in E; contradiction|].
-  rewrite forallb_forall in H2. apply N.eqb_eq. now apply H2.
+  apply andb_true_iff in H as [H1 H2]. split; [now apply sorted_eq_perm_N|]. split.
+  - intros Hm k Hk. destruct (mode =? 0) eqn:E; [apply N.eqb_eq in E; contradiction|].
+    rewrite forallb_forall in H2. apply N.eqb_eq. now apply H2.
+  - intros Hm. subst mode. cbn [N.eqb] in H2. apply existsb_exists in H2 as [k [Hk Hc]]. exists k. split; [exact Hk|].
+    now apply N.eqb_eq.
 Qed.
 
 Theorem chk_unitig_sound g : chk_unitig K stranded mode lreads g = true ->
